@@ -620,6 +620,37 @@ pub fn fail_at(msg: &mut Msg, k: &mut usize) -> bool {
 }
 
 /// Constructive cases: every (reply mode x child outcome x reply outcome x depth 1..3) bucket.
+/// Constructive admin scenarios: contracts that administer themselves and whose migrate entry point changes their own
+/// record through sub-messages (admin hand-over, admin removal, a nested migration). `admined` = (contract, its admin).
+pub fn admin_matrix(admined: &[(String, String)], code_ids: &[u64], other_user: &str, tag_base: u32) -> Vec<Top> {
+    let mut out = vec![];
+    let mut tag = tag_base;
+    let mut next = || {
+        tag += 1;
+        tag
+    };
+    let sub = |msg: Msg, mode: RMode, nonce: u32| Sub { id: nonce as u64, mode, payload: Payload::Raw(Binary::from(vec![1u8])), msg };
+    for (i, (x, admin)) in admined.iter().enumerate().take(3) {
+        let code_a = code_ids[i % code_ids.len()];
+        let code_b = code_ids[(i + 1) % code_ids.len()];
+        // hand the contract to itself, then let it migrate itself while its migrate entry point changes the record
+        out.push(Top::Exec { sender: admin.clone(), msg: Msg::UpdateAdmin { addr: x.clone(), admin: x.clone() }, via: ExecVia::Execute });
+        let inner = match i % 3 {
+            0 => Msg::UpdateAdmin { addr: x.clone(), admin: other_user.to_string() },
+            1 => Msg::ClearAdmin { addr: x.clone() },
+            _ => Msg::Migrate { addr: x.clone(), code_id: code_b, script: Box::new(Script { tag: next(), writes: vec![(Binary::from(b"nested".to_vec()), Some(Binary::from(b"m".to_vec())))], ..Default::default() }) },
+        };
+        let n = next();
+        let script = Script { tag: next(), writes: vec![(Binary::from(b"migrated".to_vec()), Some(Binary::from(format!("m{}", n).into_bytes())))], msgs: vec![sub(inner, if i % 2 == 0 { RMode::Never } else { RMode::Success }, n)], ..Default::default() };
+        out.push(Top::Exec { sender: x.clone(), msg: Msg::Migrate { addr: x.clone(), code_id: code_a, script: Box::new(script) }, via: ExecVia::Execute });
+        // whoever is admin now governs the next attempt; the old one does not
+        out.push(Top::Exec { sender: x.clone(), msg: Msg::ClearAdmin { addr: x.clone() }, via: ExecVia::Execute });
+        out.push(Top::Exec { sender: other_user.to_string(), msg: Msg::UpdateAdmin { addr: x.clone(), admin: admin.clone() }, via: ExecVia::Execute });
+        out.push(Top::QueryBattery);
+    }
+    out
+}
+
 pub fn reply_matrix(users: &[String], contracts: &[String], tag_base: u32) -> Vec<Top> {
     let mut out = vec![];
     let mut tag = tag_base;
